@@ -14,6 +14,8 @@ import (
 
 func (g *Generator) parseMethods(srcTyp, destTyp types.Type, srcTypName, destTypName string) {
 	shootnewIface := g.newShooterIface()
+	g.getsetMethods = nil
+	g.destGetSetMethods = nil
 	if types.AssignableTo(srcTyp, shootnewIface) {
 		g.parseSrcGetSetMethods(srcTyp, srcTypName)
 	}
